@@ -13,6 +13,7 @@ def dispatch : P String := do
     | "variant" => compVariant
     | "surv" => compSurv
     | "repl" => compRepl
+    | "gen" => compGen
     | "fitsort" => compFitsort
     | _ => pure s!"err unknown component {comp}"
   return s!"{seq} {comp} {body}"
